@@ -240,7 +240,7 @@ def confirm(u, name, meta, prop, fails, tier):
     key = u["harnesses"][name]["key"] + "_pb"
     pb = kani.cache_get(key)
     if pb is None:
-        pb = kani.playback(crate, u["lib"], name, 0, 1800, os.path.join(u["dir"], "playback_%s" % name),
+        pb = kani.playback(crate, u["lib"], name, 0, 900 if tier != "thorough" else 1800, os.path.join(u["dir"], "playback_%s" % name),
                            descs=[f["desc"] for _, f in fails])
         if pb.get("test"):
             kani.cache_put(key, pb)
@@ -262,7 +262,7 @@ def run(prop_id: str, tier: str, seed: int) -> vlib.Outcome:
     run_units(units, prop_id, tier, out)
     b = corpus.bounds(tier)
     assumptions, stubs = set(), set(assemble.STUB_DOC)
-    known_roles_seen = set()
+    replayed = {}
     for u in units:
         cname = u["cfg"]["name"]
         for n, m in u["harnesses"].items():
@@ -279,6 +279,7 @@ def run(prop_id: str, tier: str, seed: int) -> vlib.Outcome:
                 continue
             out.queries += r.get("checks", 0)
             out.solver_s += 0.0 if r.get("cached") else r.get("time_s", 0.0)
+            out.extra["kani_time_incl_cached_s"] = round(out.extra.get("kani_time_incl_cached_s", 0.0) + r.get("time_s", 0.0), 1)
             mine, other, bound = [], [], []
             for f in r["failed"]:
                 p, cls = classify(f["desc"], m)
@@ -298,11 +299,19 @@ def run(prop_id: str, tier: str, seed: int) -> vlib.Outcome:
                                         "covers": cov, "seconds": round(r.get("time_s", 0), 1), "cached": bool(r.get("cached")),
                                         "other_property_failures": sorted({c for c, _ in other}) or None})
                 continue
-            # violation(s) of this property: one Violation per role, replayed
-            pb = confirm(u, n, m, prop_id, mine, tier)
+            # violation(s) of this property: one Violation per role, replayed (a role already replayed in another
+            # configuration is not replayed again: same generated glue, same harness)
             by_role = {}
             for cls, f in mine:
                 by_role.setdefault(role_of(prop_id, m, cls), []).append(f)
+            if os.environ.get("VERIF_RUSTGEN_NO_PLAYBACK"):
+                pb = {"native": "not run: concrete playback switched off by VERIF_RUSTGEN_NO_PLAYBACK (mutation self-test)", "values": None, "test": None}
+            elif all(r_ in replayed for r_ in by_role):
+                pb = {"native": "not run: this role was replayed in configuration %s" % replayed[next(iter(by_role))], "values": None, "test": None}
+            else:
+                pb = confirm(u, n, m, prop_id, mine, tier)
+            for role in by_role:
+                replayed.setdefault(role, cname)
             for role, fs in by_role.items():
                 native = pb.get("native", "not run")
                 what = ("[%s] %s: %s -- %s" % (cname, m["function"], fs[0]["desc"],
@@ -350,6 +359,8 @@ def run(prop_id: str, tier: str, seed: int) -> vlib.Outcome:
         "map_type=std::collections::HashMap with one concrete entry times out at 600 s (RandomState/SipHash, 12 foreign functions)",
         "raw_strings with an exported function RETURNING a string: the generated text does not compile (`Vec<u8>::into_bytes` in StringLower; "
         "upstream TODO in tests/runtime/rust/raw-strings/test.rs), so the raw_strings worlds contain string parameters only",
+        "lists whose elements own heap data (list<string>, list<list<T>>): with <= 2 elements of <= 2 bytes CBMC aborts at the 12 GB cap (measured); "
+        "heap data nested in records/variants/tuples/options/results IS covered",
         "async, futures/streams, error-context handles",
         "types and option combinations outside the enumerated corpus; lists longer than the bound; strings longer than 2 bytes",
         "UTF-8 validation inside String::from_utf8 (stubbed, see assumptions)",
